@@ -720,7 +720,7 @@ func (vc *FnVC) constGlobal(g *ssa.Global) string {
 		t := derefType(g.Type())
 		vc.emit(fmt.Sprintf("(declare-const %s %s)", name, vc.w.so.sortOf(t)))
 		// sentinel errors initialised at package init are non-nil
-		if types.Identical(t, types.Universe.Lookup("error").Type()) && strings.HasPrefix(strings.ToLower(g.Name()), "err") {
+		if types.Identical(t, types.Universe.Lookup("error").Type()) && (strings.HasPrefix(strings.ToLower(g.Name()), "err") || g.Name() == "EOF") {
 			vc.emit(fmt.Sprintf("(assert (not (= (itag %s) 0)))", name))
 		}
 	}
